@@ -155,7 +155,7 @@ func init() {
 			if w.T == nil {
 				in.rtPanic("invalid memory address or nil pointer dereference")
 			}
-			f := in.prog.LookupMethod(w.T, nil, "Write")
+			f := in.findMethod(w.T, "Write")
 			if f == nil {
 				panic("Fprint: writer without Write")
 			}
@@ -552,7 +552,7 @@ func typeName(t types.Type) string {
 // tryErrorStringV returns the result of Error() or String() when the dynamic type has one.
 func (in *Interp) tryErrorStringV(fr *frame, i Iface) Value {
 	for _, m := range []string{"Error", "String"} {
-		f := in.prog.LookupMethod(i.T, nil, m)
+		f := in.findMethod(i.T, m)
 		if f == nil {
 			continue
 		}
@@ -669,4 +669,14 @@ func (in *Interp) sprint(fr *frame, args []Value, ln bool) Value {
 		out = append(out, uint64('\n'))
 	}
 	return mkStr(out)
+}
+
+
+// findMethod returns the exported method of T with the given name, or nil.
+func (in *Interp) findMethod(T types.Type, name string) *ssa.Function {
+	sel := in.prog.MethodSets.MethodSet(T).Lookup(nil, name)
+	if sel == nil {
+		return nil
+	}
+	return in.prog.MethodValue(sel)
 }
